@@ -230,5 +230,187 @@ def coproc_unit():
     return Unit(uid, ['C12', 'C19'], symbolic, replay, {'contracts': {}}, meta={'function': '%s.ArmV6.coproc_accepted' % A.__module__})
 
 
+def coproc_sys_unit(which):
+    """Coproc_Accepted() for CP14 (debug / trace / ThumbEE / Jazelle register spaces) and CP15.  The decode hooks below it
+    (CP14DebugInstrDecode, CP14TraceInstrDecode, CP14JazelleInstrDecode, CP15InstrDecode) and InstrIsPL0Undefined() are mock
+    hooks of the implementation: they are given the contract "returns an arbitrary boolean, touches nothing", so every path
+    of the real body around them is explored.  Specification: the Coproc_Accepted() pseudocode (instruction form, opc1 /
+    CRn selection, ThumbEE register rules, HSTR.T<n> / HSTR.TTEE / HCR.TIDCP traps for Non-secure accesses outside Hyp mode).
+    Obligations: UNDEFINED exactly where specified (the User-mode TEECR rule is the one seed4-C19 removed), no state change
+    except through a Hyp trap, a Hyp trap only where a trap is specified (and always for HSTR traps), the syndrome's exception
+    class and the ISS fields copied from the instruction, the trap entry itself equal to the architectural Hyp trap entry."""
+    from pyvc.unit import Unit, Contract, values_eq
+    from pyvc.interp import PyRaise
+    from pyvc.sym import lor, ite
+    from spec.rt import bit
+    from spec import exceptions as EXC
+    from . import machine as MC
+    m = registry.mods()
+    A = m.arm_v6.ArmV6
+    Rg = m.registers.Registers
+    UND = m.arm_exceptions.UndefinedInstructionException
+    uid = 'C12/fn:%s.ArmV6.coproc_accepted[cp%d]' % (A.__module__, which)
+    MOCKS = ['cp14_debug_instr_decode', 'cp14_trace_instr_decode', 'cp14_jazelle_instr_decode', 'cp15_instr_decode', 'cpx_instr_decode']
+
+    def iss_mcr(instr, direction=True):
+        v = (bits(instr, 7, 5) << 17) | (bits(instr, 23, 21) << 14) | (bits(instr, 19, 16) << 10) | (bits(instr, 15, 12) << 5) | (bits(instr, 3, 0) << 1)
+        return (v | bit(instr, 20)) if direction else v
+
+    def iss_mcrr(instr):
+        return (bits(instr, 7, 4) << 16) | (bits(instr, 19, 16) << 10) | (bits(instr, 15, 12) << 5) | (bits(instr, 3, 0) << 1) | bit(instr, 20)
+
+    def spec_gate(st, instr, pl0u):
+        mode = bits(st['cpsr'], 4, 0)
+        sec_ext, virt = st['cfg.have_security_ext'], st['cfg.have_virt_ext']
+        secure = lor(lnot(sec_ext), bit(st['scr'], 0) == 0, mode == ST.MON)
+        is_hyp = mode == ST.HYP
+        user = mode == ST.USR
+        ns_guest = land(sec_ext, virt, lnot(secure), lnot(is_hyp))
+        cond_ok = bits(instr, 31, 28) != 15
+        mcr = land(bits(instr, 27, 24) == 0b1110, bit(instr, 4) == 1, cond_ok)
+        if which == 14:
+            mrrc = land(lnot(mcr), bits(instr, 27, 20) == 0b11000101, cond_ok)
+            ldc = land(lnot(mcr), lnot(mrrc), bits(instr, 27, 25) == 0b110, cond_ok)
+            opc1 = ite(mcr, bits(instr, 23, 21), ite(mrrc, bits(instr, 7, 4), 0))
+            form_undef = lor(land(lnot(mcr), lnot(mrrc), lnot(ldc)), land(mrrc, opc1 != 0), land(ldc, bits(instr, 15, 12) != 5))
+            tee = land(lnot(form_undef), opc1 == 6)
+            unpred = land(tee, lor(bits(instr, 7, 5) != 0, bits(instr, 3, 1) != 0, bits(instr, 15, 12) == 15))
+            tee_ok = land(tee, lnot(unpred))
+            tee_undef = land(tee_ok, user, bit(instr, 0) == 0)
+            # CRm = 1 is not allocated to a ThumbEE register; the TEEHBR rule (User mode and TEECR.XED) for instr<0> == 1 is left open
+            dontcare = land(tee_ok, user, bit(instr, 0) == 1, bit(st['teecr'], 0) == 1)
+            trap = land(tee_ok, lnot(tee_undef), ns_guest, bit(st['hstr'], 16) == 1)
+            undef = lor(form_undef, tee_undef, land(lnot(form_undef), opc1 != 0, opc1 != 1, opc1 != 6, opc1 != 7))
+            mock = land(lnot(form_undef), lor(opc1 == 0, opc1 == 1, opc1 == 7))
+            return {'undef': undef, 'trap': trap, 'trap_must': trap, 'unpred': lor(unpred, dontcare), 'mock': mock, 'ec': 0b000101,
+                    'iss': iss_mcr(instr, False), 'iss_mask': 0xFFFFE}
+        mcrr = land(lnot(mcr), bits(instr, 27, 21) == 0b1100010, cond_ok)
+        form_undef = land(lnot(mcr), lnot(mcrr))
+        crn = ite(mcr, bits(instr, 19, 16), bits(instr, 3, 0))
+        crm = bits(instr, 3, 0)
+        pl0_und = land(user, pl0u, st['cfg.coproc_accepted_pl0_undefined'])
+        hstr_n = bit(st['hstr'] >> crn, 0) == 1
+        t1 = land(lnot(form_undef), ns_guest, crn != 14, hstr_n)
+        in9 = lor(crm == 0, crm == 1, crm == 2, crm == 5, crm == 6, crm == 7, crm == 8)
+        in10 = lor(crm == 0, crm == 1, crm == 4, crm == 8)
+        in11 = lor(crm <= 8, crm == 15)
+        t2_region = land(lnot(form_undef), lnot(t1), ns_guest, bit(st['hcr'], 20) == 1, mcr,
+                         lor(land(crn == 9, in9), land(crn == 10, in10), land(crn == 11, in11)))
+        undef = lor(form_undef, land(t1, pl0_und), land(t2_region, pl0_und))
+        # CRn = 9, CRm = 1: the HCR.TIDCP register description names c0-c2, the implementation's list omits c1; left open (DESIGN 14.17)
+        open_ = land(lnot(form_undef), lnot(t1), ns_guest, bit(st['hcr'], 20) == 1, mcr, crn == 9, crm == 1)
+        return {'undef': undef, 'trap': land(lnot(undef), lor(t1, t2_region)), 'trap_must': land(lnot(undef), t1),
+                'unpred': lor(land(lnot(form_undef), crn == 4), open_), 'mock': lnot(form_undef), 'ec': ite(mcr, 0b000011, 0b000100),
+                'iss': ite(mcr, iss_mcr(instr), iss_mcrr(instr)), 'iss_mask': 0xFFFFF}
+
+    def symbolic(eng):
+        mach = MC.SymMachine(eng, 'PMSA', 1)
+        init = dict(mach.init)
+        cfg = mach.configs
+        eng.assume(lnot(ST.bad_mode(bits(init['cpsr'], 4, 0), cfg['have_security_ext'], cfg['have_virt_ext'])))
+        eng.assume(valid(init))
+        instr = eng.fresh_int('instr', 32)
+        pl0u = eng.fresh_bool('pl0_undefined')
+        accepted = eng.fresh_bool('decode_accepts')
+        if not eng.prefix:
+            eng.cover('state satisfiable')
+        contracts = {}
+        contracts.update(registry.l1())
+        contracts.update(registry.regview())
+        contracts.update(registry.l2())
+        trapped = eng.register([])
+        mocked = eng.register([])
+
+        def rec(e, *a):
+            trapped.append(1)
+            return e.run_function(Rg.take_hyp_trap_exception, list(a), {})
+        contracts[Rg.take_hyp_trap_exception] = Contract(Rg.take_hyp_trap_exception, rec, engine=True)
+        contracts[A.instr_is_pl0_undefined] = Contract(A.instr_is_pl0_undefined, lambda self_, i_: pl0u, assumed=True,
+                                                       note='mock hook InstrIsPL0Undefined(): an arbitrary boolean of the unit')
+        for nm in MOCKS:
+            def mk(e, *a, nm=nm):
+                mocked.append(nm)
+                return accepted
+            contracts[getattr(A, nm)] = Contract(getattr(A, nm), mk, engine=True, assumed=True, note='mock decode hook: an arbitrary boolean, no state change')
+        eng.contracts = contracts
+        raised = None
+        ret = None
+        try:
+            ret = eng.call(A.coproc_accepted, [mach.cpu, which, instr])
+        except PyRaise as e:
+            raised = e.exc.cls
+        g = spec_gate(init, instr, pl0u)
+        final = mach.read()
+        up = g['unpred']
+        if raised is not None and issubclass(raised, UND):
+            eng.oblige('post', 'UNDEFINED only for an instruction form, register space or privilege the architecture rejects', lor(up, g['undef']))
+            eng.oblige_all('frame', 'a rejected access changes no state', [(k, values_eq(v, init[k])) for k, v in final.items()])
+        elif raised is None and not trapped:
+            eng.oblige('post', 'accepted without a trap only when neither UNDEFINED nor trapped to Hyp mode is specified',
+                       lor(up, land(lnot(g['undef']), lnot(g['trap_must']))))
+            eng.oblige_all('frame', 'the access check changes no state', [(k, values_eq(v, init[k])) for k, v in final.items()])
+            if mocked:
+                eng.oblige('post', 'the register-space decode hook (%s) is consulted only for its own space' % mocked[0], lor(up, g['mock']))
+                eng.oblige('post', 'the answer is the decode hook\'s', lor(up, eng.values_equal(ret, accepted)) if hasattr(eng, 'values_equal') else True)
+            else:
+                eng.oblige('post', 'accepted by Coproc_Accepted() itself only in the ThumbEE register space', lor(up, lnot(g['mock'])))
+        elif raised is None and len(trapped) == 1:
+            eng.oblige('post', 'a Hyp trap only for a Non-secure access outside Hyp mode that HSTR / HCR.TIDCP trap', lor(up, g['trap']))
+            eng.oblige('post', 'the syndrome carries the exception class and the instruction fields of the trapped access',
+                       lor(up, land(bits(final['hsr'], 31, 26) == g['ec'], (final['hsr'] & g['iss_mask']) == (g['iss'] & g['iss_mask']))))
+            exp = dict(init)
+            exp['hsr'] = final['hsr']
+            EXC.take_hyp_trap(exp)
+            eng.oblige_all('post', 'the trap entry is the architectural Hyp trap entry', [(k, lor(up, values_eq(v, exp[k]))) for k, v in final.items()])
+        else:
+            eng.oblige('safe.host', 'coproc_accepted ends in %s (%d Hyp traps)' % (getattr(raised, '__name__', 'a normal return'), len(trapped)), False)
+
+    def replay(inputs, ob):
+        cpu = MC.native_cpu('PMSA', 1, fresh=True)
+        MC.install_native(cpu, dict(inputs), 'PMSA', 1)
+        init = MC.read_native(cpu, 'PMSA', 1)
+        cfgs = registry.mods().configurations.configurations.configs
+        for k in MC.CFG_BOOL + list(MC.CFG_INT):
+            init['cfg.' + k] = cfgs.get(k)
+        instr = inputs.get('instr', 0)
+        pl0u, acc = bool(inputs.get('pl0_undefined', False)), bool(inputs.get('decode_accepts', False))
+        got = 'returned'
+        trapped = []
+        real_trap = cpu.registers.take_hyp_trap_exception
+        cpu.registers.take_hyp_trap_exception = lambda: (trapped.append(1), real_trap())[1]
+        cpu.instr_is_pl0_undefined = lambda i_: pl0u
+        for nm in MOCKS:
+            setattr(cpu, nm, lambda i_: acc)
+        import io
+        import contextlib
+        try:
+            with contextlib.redirect_stdout(io.StringIO()):
+                cpu.coproc_accepted(which, instr)
+        except Exception as e:      # noqa
+            got = type(e).__name__
+        g = spec_gate(init, instr, pl0u)
+        final = MC.read_native(cpu, 'PMSA', 1)
+        want = 'UNDEFINED' if g['undef'] else ('Hyp trap' if g['trap_must'] else ('Hyp trap or accepted' if g['trap'] else 'accepted'))
+        real = 'UNDEFINED' if got == 'UndefinedInstructionException' else (('Hyp trap' if trapped else 'accepted') if got == 'returned' else got)
+        text = 'coproc_accepted(p%d, %#010x) mode=%s scr=%s hstr=%s hcr=%s teecr=%s pl0_undefined=%s: real %s ; architecture %s%s' % (
+            which, instr, hex(init['cpsr'] & 31), hex(init['scr']), hex(init['hstr']), hex(init['hcr']), hex(init['teecr']), pl0u, real, want,
+            ' (UNPREDICTABLE / left open)' if g['unpred'] else '')
+        if g['unpred']:
+            return False, text
+        bad = real not in want.split(' or ')
+        if not bad and real == 'Hyp trap':
+            hs = final['hsr']
+            if (hs >> 26) != g['ec'] or (hs & g['iss_mask']) != (g['iss'] & g['iss_mask']):
+                bad = True
+                text += ' ; HSR %#010x, expected EC %#x ISS %#x' % (hs, g['ec'], g['iss'] & g['iss_mask'])
+        if not bad and real != 'Hyp trap':
+            diff = [k for k in final if final[k] != init.get(k, final[k])]
+            if diff:
+                bad = True
+                text += ' ; state changed: %s' % diff[:6]
+        return bad, text
+    return Unit(uid, ['C12', 'C19'], symbolic, replay, {'contracts': {}}, meta={'function': '%s.ArmV6.coproc_accepted' % A.__module__})
+
+
 def units(tier):
-    return roundtrip_units() + [coproc_unit()] + fn_units() + step.units(tier)
+    return roundtrip_units() + [coproc_unit(), coproc_sys_unit(14), coproc_sys_unit(15)] + fn_units() + step.units(tier)
